@@ -80,6 +80,35 @@ def strategy(draw):
     return dict(dt=dt, records=recs, spec=spec, k=k, prop=prop, width2=width2)
 
 
+BIG = {"quick": 16, "thorough": 160}
+
+
+@st.composite
+def strategy_big(draw):
+    """Long windows: 1-2 windows of 2^14 .. 300 000 samples (50 min at 100 Hz), FFT length None / 2^15 / 2^16 / 2^18 /
+    record length, up to 6 centre frequencies."""
+    case = draw(strategy())
+    spec = case["spec"]
+    recs = case["records"][:draw(st.sampled_from([1, 1, 2]))]
+    n = draw(gen.big_size(2 ** 14, 300_000))
+    dt0 = recs[0]["dt"]
+    for r in recs:
+        r["n"] = n
+        r["dt"] = dt0
+    if spec["method"] == "diffuse_field":
+        spec["policy"] = "keeping_majority_time_step"
+    fft = draw(st.sampled_from([None, None, 2 ** 15, 2 ** 16, 2 ** 18, "record-length"]))
+    spec["fft_n"] = fft
+    spec["_nfft"] = n if (fft == "record-length" or fft == n) else max(oracle.nextpow2(n), fft or 0)    # a requested n equal to the window length is honoured as it is
+    fcs = draw(gen.center_frequencies(spec["op"], spec["bw"], 1.0 / (spec["_nfft"] * dt0), 0.5 / dt0, max_size=6))
+    if fcs is None:
+        spec["op"], spec["bw"] = "konno_and_ohmachi", 40.0
+        fcs = draw(gen.center_frequencies(spec["op"], spec["bw"], 1.0 / (spec["_nfft"] * dt0), 0.5 / dt0, max_size=6))
+    spec["fcs"] = fcs
+    case.update(records=recs, spec=spec, dt=dt0, big=True)
+    return case
+
+
 def warmup():
     from . import c02
     c02.warmup()
@@ -144,6 +173,8 @@ def check_case(case):
     labels = [f"{gen.family(m)}|{spec['op']}", m, f"fft={spec['fft_n']}"]
     if max(r["n"] for r in case["records"]) > 2 ** 15:
         labels.append("window-longer-than-2^15")
+    if case.get("big"):
+        labels.append("big-2^%d-samples" % int(math.log2(max(r["n"] for r in case["records"]))))
     if len(set(dt)) > 1:
         labels.append("mixed-dt")
     # Savitzky-Golay has negative weights: on a coarse (un-padded) FFT grid a smoothed spectrum can come out <= 0,
